@@ -630,3 +630,47 @@ def o_c14_table(run):
         if bad:
             out.append(fail('C14: the HTTP status, headers and body carry precisely the protocol outcome', r, f'{bad}; got status={st} vid={vid} pvid={pvid} sr={sr} ct={ct}'))
     return out
+
+# --------------------------------------------------------------------------------------------- C05
+
+def o_c05(run):
+    out = []
+    prev_faulted_err = False
+    for g, pd, praw, st in iterate(run):
+        m = g.meta
+        if 'fault' not in m or not g.ops:
+            continue
+        consumed = int(m.get('consumed', '0'))
+        idx, kind = m['fault'].split(':')
+        calls = m.get('calls', '').split(',')
+        rs = [x for x in g.ops if x.op in ('av', 'gcv', 'as', 'gs', 'http')]
+        if not rs:
+            continue
+        r = rs[-1]
+        o = r.i_out if isinstance(r.i_out, tuple) else ('missing',)
+        if r.ws[0] == 'http':
+            ih = parse_http_obs(r.impl)
+            stt = ih.get('status') if ih else None
+            is_err = stt == 'panic' or (isinstance(stt, int) and stt >= 500)
+            is_success = isinstance(stt, int) and stt < 400
+            shown = stt
+        else:
+            is_err = o[0] in ('err', 'panic')
+            is_success = o[0] in ('ok', 'found', 'some', 'none', 'notfound', 'gone', 'conflict')
+            shown = o[:1]
+        changed = unchanged(g, pd, praw)
+        if consumed:
+            if not is_err:
+                out.append(fail('C05: if any storage step fails the client receives an error rather than a success acknowledgement', r, f'fault {m["fault"]} at call {calls[int(idx)] if int(idx) < len(calls) else "?"} was hit, answer {shown}'))
+            name = calls[int(idx)] if int(idx) < len(calls) else '?'
+            if changed and not (kind == 'after' and name == 'commit'):
+                # the client-creation transaction of the HTTP AddVersion handler commits on its own (known shape F3):
+                created_only = all('latest=none' in (pd.get(c) or '') and 'latest=00000000-0000-0000-0000-000000000000 snap=- data=none' in (g.dumps.get(c) or '') and ' V:' not in (g.dumps.get(c) or '') for c in g.dumps if pd.get(c) != g.dumps.get(c))
+                if created_only and r.ws[0] == 'http':
+                    out.append(dict(fail('C05/F3: a fault after the client-creation transaction leaves the (empty) client record behind', r, f'fault {m["fault"]} at {name}'), known_shape='F3'))
+                else:
+                    out.append(fail('C05: the stored versions, latest pointer and snapshot are exactly as before the request (or exactly as after it when only the acknowledgement was lost)', r, f'fault {m["fault"]} at call {name}: ' + '; '.join(changed)[:300]))
+        else:
+            if is_err:
+                out.append(fail('C05: later requests are served normally', r, f'no fault was hit but the answer is {shown}'))
+    return out
